@@ -208,9 +208,12 @@ def _rel(c, parent_cls, child_cls, coll_field, wrapper_cls, parent_field, pend=N
     v = fresh("v", Val)
     w = c.get(coll_field, p)
     pv = c.get(parent_field, ch)
+    from pyvc.core import VStr
+    named = c.get("_field", ref(w)) == VStr(z3.StringVal(coll_field)) if wrapper_cls == "Module._NodeSet" \
+        else z3.BoolVal(True)
     return z3.And(
         z3.ForAll([p], z3.Implies(c.isinst(p, parent_cls), z3.And(
-            is_VRef(w), kind_is(c, ref(w), wrapper_cls), c.get("_node", ref(w)) == VRef(p)))),
+            is_VRef(w), kind_is(c, ref(w), wrapper_cls), c.get("_node", ref(w)) == VRef(p), named))),
         z3.ForAll([p, v], z3.Implies(z3.And(c.isinst(p, parent_cls), z3.Select(data(c, w), v)),
                                      z3.And(is_VRef(v), c.isinst(ref(v), child_cls),
                                             c.get(parent_field, ref(v)) == VRef(p)))),
